@@ -27,7 +27,7 @@ func TestMain(m *testing.M) {
 			"no errors and no continuation request the tree has no missing child (canonical dump) and PrettyPrint in normal, compact and all-parens mode does not panic; " +
 			"every error message's echoed source text is a substring of the input. Enumerated completely: all sequences of up to 3 (quick) / 4 (thorough) " +
 			"tokens over a 67-exemplar token alphabet, joined with and without spaces. Plus rapid: random token sequences up to 40, every truncation and random byte mutations of the " +
-			"shipped examples. Non-trivial: the input is NOT cleanly accepted (errors or continuation), or is accepted with >= 2 statements; enumeration distinct by construction, random by bytes.",
+			"shipped examples. Strings with every kind of escape (one-letter, \\x, \\u, \\U, unknown, backslash-newline; alone, in ordered pairs, in several contexts) cut at every byte offset, plus rapid: such strings truncated, with a hole, or spliced. Non-trivial: the input is NOT cleanly accepted (errors or continuation), or is accepted with >= 2 statements; enumeration distinct by construction, random by bytes.",
 		Assumptions: []string{
 			"termination is observed through the driver's per-shard timeout: the case (or enumeration batch) in flight is stored and re-run alone; inputs are at most a few hundred bytes",
 			"a continuation request in file mode (unterminated block comment) is accepted as 'asks for more input'",
@@ -325,7 +325,7 @@ func oracle(kind string, raw json.RawMessage) error {
 	if err := json.Unmarshal(raw, &c); err != nil {
 		return err
 	}
-	if kind == "random-tokens" || kind == "truncation" || kind == "mutation" || kind == "fuzz" {
+	if kind == "random-tokens" || kind == "truncation" || kind == "mutation" || kind == "fuzz" || kind == "escape-cut" {
 		// stored in-flight cases carry no mode: try both
 		for _, lm := range []bool{c.LineMode, !c.LineMode} {
 			if _, err := check(Case{Input: c.Input, LineMode: lm}); err != nil {
